@@ -45,7 +45,8 @@ def cases(draw):
     opts = {"tol": draw(st.sampled_from([None, None, 1e-10, 1e-7])),
             "maxiter": draw(st.sampled_from([None, None, None, 400, 400, 2])),
             "use_hessian": draw(st.sampled_from([True, True, False]))}
-    return {"model": model, "method": method, "x0kind": x0kind, "off": off, "points": pts, "opts": opts}
+    return {"model": model, "method": method, "x0kind": x0kind, "off": off, "points": pts, "opts": opts,
+            "deep_algorithms": draw(st.integers(0, 4)) == 0}
 
 
 def strategy(tier):
